@@ -169,42 +169,7 @@ def run(world, rep, tier, only=None):
                "cache contents written before the cache is dropped")
 
     # ------------------------------------------------------------------ C17.b durability
-    uf = ufns.get(slots.get("flush", ""))
-    if uf is None:
-        raise Broken("unix flush slot vanished")
-    fsyncs = calls_to(uf, "fsync", "fdatasync")
-    flushes = calls_to(uf, "flush_cached_blocks")
-    rep.floor("C17.b unix_flush anchors", len(flushes), 1)
-    ex = absint.Explorer(uf, prog)
-
-    def seen(node, env, flags):
-        if node in fsyncs:
-            return flags | {"fsync"}
-        if node in flushes:
-            return flags | {"flush"}
-        return flags
-    terms = ex.run([uf.entry_node()], on_node=seen)
-    bad = []
-    for (node, env, flags, st) in terms:
-        if node.ev and node.ev["e"] == "R":
-            v = ex.eval(node.ev.get("x"), env)
-            if not absint._nz(v) and not ({"fsync", "flush"} <= flags):
-                bad.append((node.line, v, sorted(flags), ex.trace(st)))
-    rep.ob("C17.b", site(uf, "zero return only after flush_cached_blocks and fsync"), not bad,
-           "every path on which unix_flush may return 0 passed flush_cached_blocks and fsync", bad[:2] or None)
-    for f in flushes:
-        r = uf.reach(uf.after(f))
-        rep.ob("C17.b", site(uf, "cache written before fsync"), all(s in r for s in fsyncs) and
-               not any(f in uf.reach(uf.after(s)) for s in fsyncs),
-               "flush_cached_blocks precedes fsync")
-        badr = failure_returns(uf, prog, f)
-        rep.ob("C17.b", site(uf, "flush_cached_blocks failure returned"), not badr, "error reaches the return value",
-               [(b[0].line, str(b[1]), b[2]) for b in badr[:2]] or None)
-    # fsync failure
-    for s in fsyncs:
-        lits_after = [b for b in uf.blocks if uf.literal(b) and any(c.get("id") == s.ev["x"].get("id")
-                      for c in T.calls(uf.literal(b)[0]))]
-        rep.ob("C17.b", site(uf, "fsync result tested"), bool(lits_after), "fsync's result controls a branch")
+    flush_durability(prog, rep, "C17.b", "")
     # flush_cached_blocks: failure returned, failed entry stays dirty
     for n in rw:
         badr = failure_returns(fc, prog, n)
@@ -587,6 +552,48 @@ def run(world, rep, tier, only=None):
     else:
         rep.note("ext2fs_rw_bitmaps does not toggle the io cache in this tree")
 
+
+
+def flush_durability(prog, rep, rule, tag):
+    """unix_flush: returns 0 only after the cache was written out and fsync'ed; errors returned.
+    Shared with C04.b (sync_blockdev -> io_channel_flush -> this slot)."""
+    ufns = {f.name: f for f in prog.fns_in_file(UFILE)}
+    impl = [nm for nm in prog.slots().get(("struct_io_manager", "flush"), ()) if nm in ufns]
+    if not impl:
+        raise Broken("unix flush slot vanished")
+    uf = ufns[impl[0]]
+    fsyncs = calls_to(uf, "fsync", "fdatasync")
+    flushes = calls_to(uf, "flush_cached_blocks")
+    rep.floor("%s unix_flush anchors" % rule, len(flushes), 1)
+    ex = absint.Explorer(uf, prog)
+
+    def seen(node, env, flags):
+        if node in fsyncs:
+            return flags | {"fsync"}
+        if node in flushes:
+            return flags | {"flush"}
+        return flags
+    terms = ex.run([uf.entry_node()], on_node=seen)
+    bad = []
+    for (node, env, flags, st) in terms:
+        if node.ev and node.ev["e"] == "R":
+            v = ex.eval(node.ev.get("x"), env)
+            if not absint._nz(v) and not ({"fsync", "flush"} <= flags):
+                bad.append((node.line, v, sorted(flags), ex.trace(st)))
+    rep.ob(rule, site(uf, "zero return only after flush_cached_blocks and fsync" + tag), not bad,
+           "every path on which unix_flush may return 0 passed flush_cached_blocks and fsync", bad[:2] or None)
+    for f in flushes:
+        r = uf.reach(uf.after(f))
+        rep.ob(rule, site(uf, "cache written before fsync" + tag), all(s in r for s in fsyncs) and
+               not any(f in uf.reach(uf.after(s)) for s in fsyncs),
+               "flush_cached_blocks precedes fsync")
+        badr = failure_returns(uf, prog, f)
+        rep.ob(rule, site(uf, "flush_cached_blocks failure returned" + tag), not badr, "error reaches the return value",
+               [(b[0].line, str(b[1]), b[2]) for b in badr[:2]] or None)
+    for s in fsyncs:
+        lits_after = [b for b in uf.blocks if uf.literal(b) and any(c.get("id") == s.ev["x"].get("id")
+                      for c in T.calls(uf.literal(b)[0]))]
+        rep.ob(rule, site(uf, "fsync result tested" + tag), bool(lits_after), "fsync's result controls a branch")
 
 def _cn(n):
     return T.call_names(n.ev["x"])[0] if T.call_names(n.ev["x"]) else "?"
